@@ -73,7 +73,7 @@ use yash_env::builtin::{Builtin, Type};
 use yash_env::io::Fd;
 use yash_env::semantics::{ExitStatus, Field};
 use yash_env::system::Read as _;
-use yash_env::system::concurrency::WriteAll as _;
+use yash_env::system::concurrency::{Sleep as _, WriteAll as _};
 use yverif::shell::{BuiltinFuture, VEnv, VSys, probe_builtins, read_file};
 
 // ------------------------------------------------------------------------------------------
@@ -127,8 +127,20 @@ fn drain_main(env: &mut VEnv, _args: Vec<Field>) -> BuiltinFuture<'_> {
     })
 }
 
+/// `nap MS [S]`: sleeps MS milliseconds of virtual time, then exits with S.  Virtual time advances only
+/// when no process is runnable, so a napping process wakes up after every other process has blocked.
+fn nap_main(env: &mut VEnv, args: Vec<Field>) -> BuiltinFuture<'_> {
+    let ms = arg(&args, 0) as u64;
+    let st = arg(&args, 1) as i32;
+    Box::pin(async move {
+        env.system.sleep(std::time::Duration::from_millis(ms)).await;
+        ExitStatus(st).into()
+    })
+}
+
 fn flow_builtins() -> Vec<(&'static str, Builtin<VSys>)> {
     vec![
+        ("nap", Builtin::new(Type::Mandatory, nap_main)),
         ("spew", Builtin::new(Type::Mandatory, spew_main)),
         ("take", Builtin::new(Type::Mandatory, take_main)),
         ("drain", Builtin::new(Type::Mandatory, drain_main)),
@@ -273,6 +285,8 @@ fn run_sched(script: &str, mut chooser: Chooser) -> RunOut {
     let state: Rc<RefCell<SystemState>> = Rc::clone(&system.state);
     let sched = Rc::new(Sched::default());
     state.borrow_mut().executor = Some(Rc::clone(&sched) as Rc<dyn Executor>);
+    // virtual time (needed by `nap`): starts now, advanced by the run loop only when nothing is runnable
+    state.borrow_mut().now = Some(std::time::Instant::now());
 
     let env = Env::with_system(Rc::new(Concurrent::new(system)));
     let concurrent = Rc::clone(&env.system);
@@ -802,7 +816,9 @@ fn explore(prog: &str, ex: &Explorer, seed: u64) {
 
 fn main() {
     let opts = Opts::from_args();
-    quiet_panics();
+    if !opts.extra.iter().any(|a| a == "--script") {
+        quiet_panics();
+    }
     // debugging aid: `c13 --script 'text' [--sched digits | --rand seed]`, `c13 --render 'program'`
     let get = |k: &str| opts.extra.iter().position(|a| a == k).map(|i| opts.extra[i + 1].clone());
     if let Some(p) = get("--render") {
